@@ -20,6 +20,9 @@ Sites
   D  OperatorMatrixElement.__init__ / quad_ker / quad_ker_ome / build_ome: inversion method for forward matching
   E  Operator.compute_aem_list + Operator.quad_ker with QED order 0: iteration count (shape of an unused array)
   F  runner.parts._evolve_configs / _matching_configs: every card field lands under its own config key, untouched
+  G  runner.parts.match: for every combination of (recipe.inverse, matching scale below / above the initial scale, heavy
+     quark, mass scheme) with symbolic scales the direction handed to OperatorMatrixElement is the recipe's flag; with
+     inverse=False two runs differing in inversion_method hand identical arguments to the operator computation
 """
 import hashlib
 import importlib
@@ -693,6 +696,171 @@ def replay_plumbing(point, fn):
 
 
 # ---------------------------------------------------------------------------
+# G  runner.parts.match: the direction handed to OperatorMatrixElement is the recipe's `inverse` flag, never the scales
+# ---------------------------------------------------------------------------
+def _match_cards(inv, hq, inverse, rel, order=(3, 0), scheme="POLE"):
+    """stand-in for the EKO object parts.match reads: symbolic initial scale, matching scale ratios; inversion method `inv`"""
+    import types
+    from eko.io.types import EvolutionMethod
+    from eko.quantities.heavy_quarks import QuarkMassScheme
+
+    k = [SR.var("kthr%d" % i) for i in (4, 5, 6)]
+    heavy = types.SimpleNamespace(squared_ratios=k, masses_scheme=QuarkMassScheme[scheme])
+    t = types.SimpleNamespace(order=tuple(order), xif=SR.var("xif"), n3lo_ad_variation=(0,) * 7, use_fhmruvv=True, matching_order=(order[0] - 1, 0), heavy=heavy)
+    cfgs = types.SimpleNamespace(evolution_method=EvolutionMethod.TRUNCATED, ev_op_iterations=2, ev_op_max_order=(10, 0), polarized=False, time_like=False,
+                                 n_integration_cores=1, scvar_method=None, inversion_method=inv)
+    o = types.SimpleNamespace(configs=cfgs, debug=types.SimpleNamespace(skip_singlet=False, skip_non_singlet=False), mu20=SR.var("mu20"), init=(SR.var("mu0"), hq - 1))
+    return types.SimpleNamespace(theory_card=t, operator_card=o)
+
+
+def case_match(log):
+    """every combination of (recipe.inverse, matching scale below / above the initial scale, heavy quark); scales symbolic"""
+    e = env()
+    qk = e["qk"]
+    parts = sym_module("eko.runner.parts")
+    om = sym_module("eko.evolution_operator.operator_matrix_element")
+    evo = importlib.import_module("eko.evolution_operator")
+    from eko.io.items import Matching
+    from eko.io.types import InversionMethod
+
+    log.encode(parts.match, parts._matching_configs, parts._evolve_configs, om.OperatorMatrixElement.__init__, om.matching_method)
+    decide = Decider(log)
+    records = []
+
+    class Cpl:
+        alphaem_running = False
+
+        def a_s(self, scale, nf_to=None):
+            return uf("couplings.a_s", (scale, nf_to), (), real=True)
+
+    class Interp:
+        log = True
+
+    class RecOME(om.OperatorMatrixElement):
+        """the real constructor, its arguments recorded; compute() (quadrature) is where the claim stops"""
+
+        def __init__(self, config, managers, nf, q2, is_backward, L, is_msbar):
+            rec = {"is_backward": is_backward, "nf": nf, "q2": q2, "L": L, "is_msbar": is_msbar, "reads": []}
+            records.append(rec)
+            om.OperatorMatrixElement.__init__(self, _Cfg(config, rec["reads"]), managers, nf, q2, is_backward, L, is_msbar)
+            rec["backward_method"] = self.backward_method
+
+        def compute(self):
+            self.op_members = ("op_members", self.backward_method.name)
+
+    class _Map:
+        def __init__(self, *a):
+            self.a = a
+
+        def to_flavor_basis_tensor(self, qed):
+            return uf("matching.res", (self.a, qed), (2,), real=True), uf("matching.err", (self.a, qed), (2,), real=True)
+
+    class _MC:
+        class MatchingCondition:
+            split_ad_to_evol_map = staticmethod(lambda members, nf, scale, qed: _Map(members, nf, scale, qed))
+
+    class _OmeMod:
+        OperatorMatrixElement = RecOME
+
+    parts.ome, parts.matching_condition = _OmeMod, _MC
+    parts._managers = lambda eko: evo.Managers(atlas=None, couplings=Cpl(), interpolator=Interp())
+    parts.Operator = lambda res, err: (res, err)
+    WANT = {None: qk.MatchingMethods.FORWARD, InversionMethod.EXACT: qk.MatchingMethods.BACKWARD_EXACT, InversionMethod.EXPANDED: qk.MatchingMethods.BACKWARD_EXPANDED}
+
+    for hq in (4, 5, 6):
+        for scheme in ("POLE", "MSBAR"):
+            for rel in ("<0", ">0"):  # matching scale below / above the initial scale mu0^2
+                for inverse in (False, True):
+                    tag = "parts.match hq=%d %s, matching scale %s initial scale, recipe.inverse=%s" % (hq, scheme, "below" if rel == "<0" else "above", inverse)
+                    rp = (MOD, "replay_match", {"hq": hq, "inverse": inverse, "rel": rel, "scheme": scheme})
+                    key = "parts.match:is_backward"
+
+                    def run():
+                        del records[:]
+                        scale, mu20 = SR.var("scale"), SR.var("mu20")
+                        for v in (scale, mu20, SR.var("xif"), SR.var("kthr4"), SR.var("kthr5"), SR.var("kthr6")):
+                            assume(v, ">0")
+                        assume(scale - mu20, rel)
+                        recipe = Matching(scale, hq, inverse)
+                        invs = (Token("inversion_A"), Token("inversion_B")) if not inverse else (InversionMethod.EXACT, InversionMethod.EXPANDED, None)
+                        outs = [_guard(lambda: parts.match(_match_cards(inv, hq, inverse, rel, scheme=scheme), recipe)) for inv in invs]
+                        bad = [o for o in outs if o[0] != "value"]
+                        if bad:
+                            decide(prove_formula(z3.BoolVal(False), "%s: the operator is set up without %s (%s)" % (
+                                tag, "touching the inversion method" if not inverse else "an error", bad[0][1])), key, rp)
+                            return
+                        recs = list(records)
+                        good = len(recs) == len(invs) and all(r["is_backward"] is inverse for r in recs)
+                        decide(prove_formula(z3.BoolVal(good), "%s: is_backward handed to OperatorMatrixElement is the recipe's flag (got %r)" % (tag, [r["is_backward"] for r in recs])), key, rp)
+                        if not inverse:
+                            ok = all(r["backward_method"] is qk.MatchingMethods.FORWARD and "backward_inversion" not in r["reads"] for r in recs)
+                            decide(prove_formula(z3.BoolVal(ok), "%s: forward method, config['backward_inversion'] never read" % tag), key, rp)
+                            ra, rb = recs[0], recs[1]
+                            for name in ("q2", "L"):
+                                decide(prove_zero(SR(0) + ra[name] - rb[name], "%s: argument %s identical for two inversion methods" % (tag, name)), key, rp)
+                            decide(prove_formula(z3.BoolVal(ra["nf"] == rb["nf"] == hq - 1 and ra["is_msbar"] is rb["is_msbar"] and ra["is_msbar"] is (scheme == "MSBAR")),
+                                                 "%s: nf / is_msbar identical for two inversion methods" % tag), key, rp)
+                            _same(log, ("value", outs[0][1][0]), ("value", outs[1][1][0]), "%s: operator identical for two inversion methods" % tag, key, rp, decide)
+                            _same(log, ("value", outs[0][1][1]), ("value", outs[1][1][1]), "%s: error estimate identical for two inversion methods" % tag, key, rp, decide)
+                        else:
+                            ok = all(r["backward_method"] is WANT[inv] for r, inv in zip(recs, invs))
+                            decide(prove_formula(z3.BoolVal(ok), "%s: the configured inversion method is the one applied (got %r)" % (tag, [r["backward_method"].name for r in recs])), key, rp)
+                        decide(prove_zero(SR(0) + recs[0]["q2"] - scale, "%s: matching scale passed on unchanged" % tag), key, rp)
+                        log.twin(tag)
+
+                    _r, pm = explore(run, max_paths=16)
+                    log.path_stats(pm)
+                    v = prove_formula(z3.BoolVal(pm.paths == 1), "%s: no branch on the scales (%d paths)" % (tag, pm.paths))
+                    decide(v, key, rp)
+    log.assume("site G: OperatorMatrixElement.compute (quadrature) and the flavour-basis blow-up replaced by uninterpreted functions of the recorded operator; managers stubbed")
+
+
+def replay_match(point, hq, inverse, rel, scheme):
+    """the REAL parts.match (real cards, managers, quadrature on a 3-point grid) for inversion_method None / exact / expanded"""
+    import copy
+    import logging
+    import types
+
+    import numpy as np
+    from eko.io import runcards
+    from eko.io.items import Matching
+    from eko.runner import commons
+    from ekobox.cards import example
+
+    logging.disable(logging.CRITICAL)
+    parts = importlib.import_module("eko.runner.parts")
+    res = {}
+    for inv in (None, "exact", "expanded"):
+        th, op = copy.deepcopy(example.raw_theory()), copy.deepcopy(example.raw_operator())
+        th["order"], th["matching_order"] = [2, 0], [1, 0]
+        th["couplings"]["ref"] = [91.2, 5]
+        if scheme == "MSBAR":
+            th["heavy"]["masses_scheme"] = "msbar"
+            th["heavy"]["masses"] = [[1.51, 1.51], [4.92, 4.92], [172.5, 172.5]]
+        mass = th["heavy"]["masses"][hq - 4][0]
+        op["init"] = [mass * (2.0 if rel == "<0" else 0.6), hq if inverse else hq - 1]
+        op["mugrid"] = [[mass * 3.0, hq - 1 if inverse else hq]]
+        op["xgrid"] = [0.05, 0.4, 1.0]
+        op["configs"]["interpolation_polynomial_degree"] = 1
+        op["configs"]["n_integration_cores"] = 1
+        op["configs"]["inversion_method"] = inv
+        tc, oc = runcards.TheoryCard.from_dict(th), runcards.OperatorCard.from_dict(op)
+        scale = commons.atlas(tc, oc).walls[hq - 3]
+        if not ((scale < oc.mu20) == (rel == "<0")):
+            return None
+        out = parts.match(types.SimpleNamespace(theory_card=tc, operator_card=oc), Matching(scale, hq, inverse))
+        res[inv] = np.array(out.operator)
+    same = {k: bool(np.array_equal(res[None], res[k])) for k in ("exact", "expanded")}
+    where = "matching scale %s the initial scale mu0^2" % ("below" if rel == "<0" else "above")
+    if not inverse and not all(same.values()):
+        d = max(float(np.nanmax(np.abs(res[None] - res[k]))) for k in ("exact", "expanded"))
+        return {"detail": "real runner.parts.match, hq=%d, recipe.inverse=False (no downward matching), %s: operators differ between inversion_method None / exact / expanded (max |diff| %.3e)" % (hq, where, d)}
+    if inverse and any(same.values()):
+        return {"detail": "real runner.parts.match, hq=%d, recipe.inverse=True, %s: inversion_method %s gives the forward operator (the recipe's flag is ignored)" % (hq, where, [k for k, v in same.items() if v])}
+    return None
+
+
+# ---------------------------------------------------------------------------
 # replays: the REAL code twice, results must be bitwise identical
 # ---------------------------------------------------------------------------
 def _real_ad(cfg, label, it, mo, var, fhm, em):
@@ -858,6 +1026,7 @@ def main():
         "where the code converts the symbolic value (e.g. allocates an array of that length) the concrete pairs %r are compared instead" % (PAIRS,),
         "site C: Couplings.compute, orders (1-4, 0), methods expanded and exact, nf 3-6, the flag symbolic in both executions; "
         "Couplings.a inside one nf=4 patch, symbolic reference and target scales on either side of the tau mass, compute an uninterpreted recorder",
+        "site G: real runner.parts.match + real OperatorMatrixElement.__init__ for hq 4-6 x pole/MSbar x recipe.inverse x matching scale below/above mu0^2 (symbolic scales, ratios, xif); stops at OperatorMatrixElement.compute",
         "site D: OperatorMatrixElement built for forward matching, matching orders 1-3, three sv modes; site E: Operator built for QCD-only configurations with concrete setting pairs",
     ]
     chk.out_of_claim = ["bitwise identity of complete solves (integration, interpolation, archive): only the Mellin-space integrand and the couplings are compared, over the reals",
@@ -878,6 +1047,7 @@ def main():
     chk.case("matching", case_matching, quick=quick)
     chk.case("operator", case_operator, quick=quick)
     chk.case("plumbing", case_plumbing)
+    chk.case("match", case_match)
     return chk.run()
 
 
